@@ -91,8 +91,20 @@ pub fn sfs_fifo(ctx: &Ctx, args: &[&str], bytes: &[u8], first: usize, fifo: &str
             std::thread::sleep(std::time::Duration::from_millis(60));
             put(&data[first..]);
         }
-        // give the reader time to have the pipe open before our (last other) handle goes away
-        std::thread::sleep(std::time::Duration::from_millis(80));
+        // Our handle keeps the pipe (and what is in it) alive until the reader has taken everything: only then is it closed,
+        // which is what gives the reader its end of file.  A reader that opens the path late still finds the data; a reader
+        // that never comes is noticed through `gone`.
+        {
+            use std::os::fd::AsRawFd;
+            loop {
+                let mut pending: libc::c_int = 0;
+                let rc = unsafe { libc::ioctl(w.as_raw_fd(), libc::FIONREAD, &mut pending) };
+                if rc != 0 || pending == 0 || gone_w.load(std::sync::atomic::Ordering::Relaxed) {
+                    break;
+                }
+                std::thread::sleep(std::time::Duration::from_millis(1));
+            }
+        }
         drop(w);
     });
     let out = child.wait_with_output().ok()?;
